@@ -144,8 +144,14 @@ class HeapRewriter:
                         return r
                     except z3.Z3Exception:
                         pass
-                while z3.is_store(arr) and self.distinct(arr.arg(1), idx):
-                    arr = arr.arg(0)
+                while True:
+                    while z3.is_store(arr) and self.distinct(arr.arg(1), idx):
+                        arr = arr.arg(0)
+                    # a heap array created by a loop cut with frame "non-entry": entry-allocated references read as before
+                    if z3.is_const(arr) and arr.decl().name() in smt.FRAME_OF and idx.sort() == smt.V and self.entry(idx):
+                        arr = self.rw(smt.FRAME_OF[arr.decl().name()])
+                        continue
+                    break
                 if z3.is_store(arr) and arr.arg(1).get_id() == idx.get_id():
                     r = arr.arg(2)
                 else:
